@@ -6,8 +6,11 @@ Two correspondence legs against the Lean model `PgFdr.C18` (driver op "method"):
   from the substrings the code tests, valid / invalid / missing strategy names) goes through the
   real `methods.parse_method_toml`; the parsed configuration (score class, origin class, razor /
   shared flags, grouping, competition, rescue ability, remapping, evidence flag, score column)
-  and the verdict of the real `get_protein_group_results` on a small fixed peptide list are
-  compared with the model's configuration and verdict.
+  is compared with the model's; then a small fixed data set, rendered in the input format the
+  configuration reads, goes through the REAL evidence parser of that type with the configuration's
+  score type (every origin x score combination, `MQ_protein` included; a MaxQuant proteinGroups
+  file is supplied in a share of the cases) and the real `get_protein_group_results` runs on what
+  the parser returned; the verdict (table / skipped / which refusal) is compared with the model's.
 * kind "cli" (subprocesses, `extra` stage, 16-way parallel): `python -m picked_group_fdr` for
   EVERY shipped method (the list is read from the methods directory of the tree under test) on a
   generated consistent data set rendered in the input format the method reads (MaxQuant
@@ -56,6 +59,8 @@ OWN_ERRORS = [
     ("ValueError", r"No fasta or peptide to protein mapping file detected", "missing_fasta"),
     ("ValueError", r"Missing MQ protein groups file input", "missing_mq_protein_groups"),
     ("ValueError", r"Column None is missing", "no_score_column"),
+    # fixes/C18-mq-protein-score-without-file: the shipped code ends in FileNotFoundError '' here (internal error)
+    ("ValueError", r"MQ_protein score type reads its protein scores from a MaxQuant\s+proteinGroups.txt file, but no such file was given", "no_protein_score_file"),
     ("ValueError", r"Unknown pickedStrategy .*'picked', 'picked_group' or 'classic'", "unknown_picked"),
     ("ValueError", r"Unknown (pickedStrategy|grouping) .*'no', 'subset' or 'rescued_subset'", "unknown_grouping"),
     ("NotImplementedError", r"^$", "unknown_score"),
@@ -292,18 +297,14 @@ def check_table(text):
 
 
 # --------------------------------------------------------------------------------------
-# fixed peptide list for the in-process verdict
+# fixed data set for the in-process verdict: rendered in the input format the configuration reads, parsed by the
+# real evidence parser with the configuration's score type, then handed to the real get_protein_group_results
 # --------------------------------------------------------------------------------------
-def fixed_pil():
-    return {
-        "AAAAAAK": [0.0001, ["P1"]],
-        "CCCCCCR": [0.0002, ["P1", "P2"]],
-        "GGGGGGK": [0.001, ["P1"]],
-        "EEEEEEK": [0.002, ["P2"]],
-        "NNNNNNR": [0.003, ["P3"]],
-        "NNNNNKLLLLLLM": [0.004, ["REV__P3"]],
-        "DDDDDDK": [0.05, ["REV__P1"]],
-    }
+FIXED = {
+    "proteins": TINY["proteins"],
+    "psms": TINY["psms"] + [["DDDDDDK", ["REV__P1"], "0.05"]],
+}
+MQ_GROUPS_TXT = _tsv([["Protein IDs", "Score"], ["P1", "30"], ["P2", "20"], ["P3", "10"], ["REV__P1", "3"], ["REV__P2", "2"], ["REV__P3", "1"]])
 
 
 class _Args:
@@ -317,7 +318,8 @@ class P(Prop):
     chunk = 500
     rule = (
         "kind=cfg: generated TOML files (score descriptions composed of the tested substrings, valid/invalid/missing "
-        "strategy names, pseudo-gene override, random supplied-input sets) through the real parse_method_toml and "
+        "strategy names, pseudo-gene override, random supplied-input sets, 20% with a proteinGroups file) through the real "
+        "parse_method_toml, the real evidence parser of the configuration's input type on a fixed rendered data set and "
         "get_protein_group_results in-process; kind=cli (extra stage): the real command line for every shipped method "
         "on a generated consistent data set of its input type with FASTA, several methods at once, runs without FASTA and "
         "deliberately unsupported combinations. Non-trivial = a configuration that parses (cfg) / a run that reaches the "
@@ -355,7 +357,8 @@ class P(Prop):
                 t.pop(k, None)
         sup = {k: rng.random() < 0.6 for k in INPUTS}
         sup["map"] = rng.random() < 0.7
-        sup["mq_groups"] = False
+        # a MaxQuant proteinGroups.txt listing every protein of the fixed data set, for a share of the cases
+        sup["mq_groups"] = rng.random() < 0.2
         return {"kind": "cfg", "toml": t, "use_genes": rng.random() < 0.12, "supplied": sup}
 
     def _field(self, rng, k):
@@ -446,8 +449,23 @@ class P(Prop):
             "needs_map": bool(methods.requires_peptide_to_protein_map([mc])),
         }
 
+    _maps = {}
+
+    def _fixed_maps(self, d, use_genes):
+        """the peptide -> protein maps of the FIXED proteins, through the real digest with the command line's defaults"""
+        if use_genes not in P._maps:
+            from picked_group_fdr import peptide_protein_map
+            from picked_group_fdr import picked_group_fdr as pgf
+
+            fa = os.path.join(d, "db.fasta")
+            Path(fa).write_text(render_fasta(FIXED))
+            args = pgf.parse_args(["--fasta", fa, "--mq_evidence", "x"] + (["--gene_level"] if use_genes else []))
+            P._maps[use_genes] = peptide_protein_map.get_peptide_to_protein_maps_from_args(args, use_genes)
+        return P._maps[use_genes]
+
     def _run_cfg(self, case):
         from picked_group_fdr import methods, peptide_protein_map
+        from picked_group_fdr.parsers import evidence
         from picked_group_fdr import picked_group_fdr as pgf
         import numpy as np
 
@@ -469,23 +487,41 @@ class P(Prop):
                 except Exception as e:
                     out = self._err_of(e)
                     return out
+            files, words = render_inputs(FIXED, [k for k in INPUTS if sup[k]])
+            for fn, content in files.items():
+                Path(d, fn).write_text(content)
             a = _Args()
             for k, attr in (("mq", "mq_evidence"), ("perc", "perc_evidence"), ("fragpipe", "fragpipe_psm"), ("sage", "sage_results"), ("diann", "diann_reports")):
-                setattr(a, attr, [k] if sup[k] else None)
-            if not mc.score_type.get_evidence_file(a):
+                setattr(a, attr, [os.path.join(d, w) for w in words[k]] if sup[k] else None)
+            # run_method: the evidence files of the method's type; none -> warning, method skipped
+            evidence_files = mc.score_type.get_evidence_file(a)
+            if not evidence_files:
                 return {"cfgs": [view], "outcomes": ["skipped"]}
-            if mc.score_type.get_score_column() is None:
-                # the evidence parsers demand the column `None` -> "Column None is missing" (exercised in the cli leg)
-                return {"cfgs": [view], "outcomes": [{"abort": "no_score_column"}]}
             np.random.seed(1)
             try:
-                res = pgf.get_protein_group_results(fixed_pil(), "" if not sup["mq_groups"] else "x", mc, None, False, 0.01, 0.01)
+                maps = [None]
+                if methods.requires_peptide_to_protein_map([mc]):
+                    maps = self._fixed_maps(d, case["use_genes"])
+                # the REAL evidence parser of the method's input type with the method's score type (every
+                # origin x score combination goes through it: MQ_protein, column None, is refused by the MaxQuant
+                # parser only), then the real inference on what it returned
+                pil = evidence.parse_evidence_files(evidence_files, maps, mc.score_type, True)
+                mqg = ""
+                if sup["mq_groups"]:
+                    mqg = os.path.join(d, "proteinGroups.txt")
+                    Path(mqg).write_text(MQ_GROUPS_TXT)
+                res = pgf.get_protein_group_results(pil, mqg, mc, None, False, 0.01, 0.01)
                 n = len(res)
                 if n == 0:
                     return {"cfgs": [view], "outcomes": [{"abort": "internal:empty-result"}]}
                 return {"cfgs": [view], "outcomes": ["table"]}
             except Exception as e:
-                return {"cfgs": [view], "outcomes": [{"abort": self._err_of(e)["err"]}], "_rec": {"msg": str(e)[:200]}}
+                tb = traceback.extract_tb(e.__traceback__)
+                return {
+                    "cfgs": [view],
+                    "outcomes": [{"abort": self._err_of(e)["err"]}],
+                    "_rec": {"msg": str(e)[:200], "where": ["%s:%d %s" % (os.path.basename(f.filename), f.lineno, f.name) for f in tb[-5:]]},
+                }
         finally:
             shutil.rmtree(d, ignore_errors=True)
 
@@ -715,7 +751,7 @@ class P(Prop):
             return "cfgs" in impl_out
         if case["kind"] == "cli_all":
             return True
-        return bool(impl_out.get("written")) or bool(impl_out.get("skipped")) or impl_out.get("err") in ("rescue_unsupported", "missing_mq_protein_groups", "no_score_column")
+        return bool(impl_out.get("written")) or bool(impl_out.get("skipped")) or impl_out.get("err") in ("rescue_unsupported", "missing_mq_protein_groups", "no_score_column", "no_protein_score_file")
 
     def features(self, case, impl_out):
         f = ["kind=" + case["kind"]]
@@ -731,6 +767,10 @@ class P(Prop):
                 f.append("cfg:score=" + c["score"])
                 f.append("cfg:origin=" + c["origin"])
                 f.append("cfg:grouping=" + c["grouping"])
+                if o != "skipped":
+                    f.append("cfg:parsed:%s:%s" % (c["input"], c["score"]))
+                if case["supplied"].get("mq_groups"):
+                    f.append("cfg:mq_groups_supplied")
                 if c["razor"]:
                     f.append("cfg:razor")
                 if case["use_genes"]:
@@ -886,6 +926,17 @@ class P(Prop):
             ("unknown-score", {"pickedStrategy": "picked", "scoreType": "bestpep", "grouping": "no", "sharedPeptides": "discard", "label": "custom"}, "mq"),
             ("mq-native-without-groups", {"pickedStrategy": "picked", "scoreType": "bestPEP", "grouping": "mq_native", "sharedPeptides": "discard", "label": "custom"}, "mq"),
             ("no-score-column", {"pickedStrategy": "picked", "scoreType": "MQ_protein", "grouping": "no", "sharedPeptides": "discard", "label": "custom"}, "mq"),
+            ("no-score-column", {"pickedStrategy": "classic", "scoreType": "no_remap MQ_protein", "grouping": "mq_native", "sharedPeptides": "razor", "label": "custom"}, "mq"),
+            # MQ_protein outside MaxQuant input: only the MaxQuant parser demands the score column; the others parse and the
+            # first pass asks the score object for a proteinGroups file nobody gave it (repaired: the tool's own ValueError;
+            # shipped code: FileNotFoundError '' -- the C18 finding).  The grouping's own refusal comes first, the rescue
+            # refusal later.
+            ("mq-protein-score-other-input", {"pickedStrategy": "picked", "scoreType": "Perc MQ_protein", "grouping": "subset", "sharedPeptides": "discard", "label": "custom"}, "perc"),
+            ("mq-protein-score-other-input", {"pickedStrategy": "picked_group", "scoreType": "Perc remap MQ_protein", "grouping": "no", "sharedPeptides": "discard", "label": "custom"}, "perc"),
+            ("mq-protein-score-other-input", {"pickedStrategy": "classic", "scoreType": "FragPipe MQ_protein", "grouping": "subset", "sharedPeptides": "discard", "label": "custom"}, "fragpipe"),
+            ("mq-protein-score-other-input", {"pickedStrategy": "picked", "scoreType": "Sage MQ_protein", "grouping": "rescued_subset", "sharedPeptides": "discard", "label": "custom"}, "sage"),
+            ("mq-protein-score-other-input", {"pickedStrategy": "picked", "scoreType": "DIA-NN MQ_protein", "grouping": "subset", "sharedPeptides": "discard", "label": "custom"}, "diann"),
+            ("mq-protein-score-mq-native", {"pickedStrategy": "picked", "scoreType": "Perc MQ_protein", "grouping": "mq_native", "sharedPeptides": "discard", "label": "custom"}, "perc"),
         ]
         for what, t, inp in customs:
             cases.append({"kind": "cli", "what": what, "methods": [{"toml": t}], "supply": [inp], "fasta": True, "data": gen_data(rng), "expect": "refused"})
@@ -903,6 +954,22 @@ class P(Prop):
                 "expect_tables": 1,
             }
         )
+        # the Andromeda score (column "score") is read from every input type: the non-MaxQuant parsers fall back to their
+        # search-engine score column
+        andro = [("Perc Andromeda", "perc"), ("FragPipe Andromeda", "fragpipe"), ("Sage Andromeda", "sage"), ("DIA-NN Andromeda", "diann")]
+        for st, inp in (rng.sample(andro, 2) if tier == "quick" else andro):
+            cases.append(
+                {
+                    "kind": "cli",
+                    "what": "custom-supported",
+                    "methods": [{"toml": {"pickedStrategy": "picked", "scoreType": st, "grouping": "subset", "sharedPeptides": "discard", "label": "custom andromeda"}}],
+                    "supply": [inp],
+                    "fasta": True,
+                    "data": gen_data(rng),
+                    "expect": "tables",
+                    "expect_tables": 1,
+                }
+            )
         # gene-level run on a FASTA without gene names: every method falls back to pseudo-gene grouping
         for n in rng.sample(names, 2 if tier == "quick" else 8):
             cases.append(
@@ -1002,6 +1069,26 @@ class P(Prop):
             and impl_out.get("err") == "internal:AttributeError"
             and "peptide_counts_per_protein" in ((impl_out.get("_rec") or {}).get("stderr_tail", ""))
         )
+
+    def mq_protein_score_without_file(self, case, impl_out, rec):
+        """score MQ_protein on Percolator / FragPipe / Sage / DIA-NN input: MQProteinScore.get_protein_scores_from_file opens
+        the file name '' (parse_method_toml never passes one) -> FileNotFoundError instead of the tool's own refusal"""
+        if not isinstance(impl_out, dict):
+            return False
+        r = impl_out.get("_rec") or {}
+        if case.get("kind") == "cfg":
+            o = (impl_out.get("outcomes") or [None])[0]
+            return (
+                isinstance(o, dict)
+                and o.get("abort") == "internal:FileNotFoundError"
+                and "No such file or directory: ''" in (r.get("msg") or "")
+                and any("get_protein_scores_from_file" in w or "get_tsv_reader" in w or "parse_protein_groups_file_single" in w for w in r.get("where", []))
+            )
+        if case.get("kind") == "cli":
+            tail = r.get("stderr_tail") or ""
+            mqp = any("MQ_protein" in str((m.get("toml") or {}).get("scoreType", "")) for m in case.get("methods", []))
+            return impl_out.get("err") == "internal:FileNotFoundError" and "No such file or directory: ''" in tail and mqp and ("get_tsv_reader" in tail or "parse_protein_groups_file_single" in tail or "get_protein_scores_from_file" in tail)
+        return False
 
     def factory_message_typeerror(self, case, impl_out, rec):
         """an unknown pickedStrategy / grouping name dies with TypeError while the factory formats its own message"""
